@@ -153,7 +153,7 @@ func (w *world) check(t *rapid.T, trace string, sub *stats.Sub) {
 func TestPropNameOwnership(t *testing.T) {
 	sub := stats.NewSub("name-ownership-histories", "rapid state machine on the real controller: ops create/update a cluster (valid object; server names drawn from a pool with case variants, never claimed by another stored object), delete, duplicate delivery; after every event, for every name of the pool x {as is, upper case, with port}: Manager.Get(HostWithoutPort(h)), the tls.Config for a ClientHello with that SNI (certificate, client-CA subjects) and SNIVerifyOptions must be those of the model's owner or nobody's; non-trivial = the history moves an alias between clusters, reuses a name after a delete, or a name is owned under a different case than looked up; distinct by FNV-64 of the op trace")
 	mats := pki.Pool(5)
-	stats.Check(t, stats.N(500, 8000), func(t *rapid.T) {
+	stats.Check(t, stats.N(1500, 8000), func(t *rapid.T) {
 		w := &world{box: ctlbox.New(), stored: map[string]*proxyv1alpha1.UpstreamCluster{}}
 		defer w.box.Close()
 		trace := ""
